@@ -9,3 +9,4 @@ import Theorems.C03
 #print axioms C03.info_instances_ok
 #print axioms C03.info_instances_in_catalogue
 #print axioms C03.min_distance_large
+#print axioms C03.exact_distance_attained
